@@ -327,6 +327,13 @@ func genKeystoreSec() {
 	for _, m := range []string{"setCurrent", "changeKeyState", "addKey", "destroyKey"} {
 		strs(m+"Calls", callSeq(funcDecl(fsdir+"keyRing.go", "KeyRing", m), "pushTX", "syncKeyRing", "popTX"), fsdir+"keyRing.go: "+m)
 	}
+	// the optimistic checks: what each transaction's Apply tests before it changes the ring, and which values of
+	// the handle's view the ring methods put into the transaction they push
+	for _, tx := range []string{"txSetKeyCurrent", "txChangeKeyState", "txAddKey"} {
+		strs(tx+"Apply", bodyStmts(funcDecl(fsdir+"keyRingTX.go", tx, "Apply")), fsdir+"keyRingTX.go: "+tx+".Apply")
+	}
+	strs("setCurrentBody", bodyStmts(funcDecl(fsdir+"keyRing.go", "KeyRing", "setCurrent")), fsdir+"keyRing.go: setCurrent")
+	strs("nextSeqnumBody", bodyStmts(funcDecl(fsdir+"keyRing.go", "KeyRing", "nextSeqnum")), fsdir+"keyRing.go: nextSeqnum")
 	strs("importASN1Calls", callSeq(funcDecl(fsdir+"export.go", "KeyRing", "importASN1"), "copyKey", "pushTX", "syncKeyRing", "popTX"), fsdir+"export.go: importASN1")
 
 	// --- encrypt-before-write sites
